@@ -70,10 +70,17 @@ def notes_to_abs(rng, notes, sigs=True, shuffle=True, meta_chan=0, extra=True):
     return ms
 
 
-def abs_to_rel(ms):
-    """python-side conversion used only to build relative INPUTS (stable by time; not an oracle)"""
+RANK = {"INTERNAL": 0, "SEQUENCE_CONTROL": 1, "KEY_SIGNATURE": 2, "TIME_SIGNATURE": 3, "CONTROL_CHANGE": 4,
+        "PROGRAM_CHANGE": 5, "NOTE_OFF": 6, "NOTE_ON": 7, "WAIT": 8}
+
+
+def abs_to_rel(ms, library_order=False):
+    """python-side conversion used only to build relative INPUTS (not an oracle).  Simultaneous messages: note-offs first,
+    or -- library_order -- the library's canonical order (channel, type, pitch), in which a lower channel's note-on
+    precedes a higher channel's note-off on the same tick"""
     out, cur = [], 0
-    for m in sorted(ms, key=lambda m: (m[2], {"NOTE_OFF": 0}.get(m[0], 1))):
+    key = (lambda m: (m[2], m[1], RANK[m[0]], m[4])) if library_order else (lambda m: (m[2], {"NOTE_OFF": 0}.get(m[0], 1)))
+    for m in sorted(ms, key=key):
         if m[2] > cur:
             out.append(WT(m[1], m[2] - cur))
             cur = m[2]
@@ -87,7 +94,7 @@ def gen_abs_wf(rng, **kw):
 
 
 def gen_rel_wf(rng, trailing=True, **kw):
-    r = abs_to_rel(gen_abs_wf(rng, **kw))
+    r = abs_to_rel(gen_abs_wf(rng, **kw), library_order=rng.random() < 0.4)
     if trailing and rng.random() < 0.5:
         r.append(WT(rng.choice(CHANS), rng.choice([1, 6, 12, 24, 50])))
     return r
